@@ -94,10 +94,11 @@ def vic_of_tree(cmds, indent=""):
             if tb is None:
                 return None
             # not_global is compound-atomic in the grammar: no blank between pattern and block
+            # (every spelling of the keywords takes its turn: which one depends on the pattern's length)
             if pol:
-                s = indent + 'global "%s" {\n%s\n%s}' % (p, tb, indent)
+                s = indent + '%s "%s" {\n%s\n%s}' % (["global", "g"][len(p) % 2], p, tb, indent)
             else:
-                s = indent + 'v "%s"{\n%s\n%s}' % (p, tb, indent)
+                s = indent + '%s "%s"{\n%s\n%s}' % (["v", "not_global", "!global"][len(p) % 3], p, tb, indent)
             if isinstance(el, C) and el.name == "Some":
                 eb = vic_of_tree(el.args[0], indent + "  ")
                 if eb is None:
@@ -262,6 +263,24 @@ def run(chk, binary):
                                "rc": [rs[0][0], r[0]], "stdout_short": rs[0][1].decode(errors="replace"),
                                "stdout_form": r[1].decode(errors="replace"), "stderr_form": r[2].decode(errors="replace")[-300:]})
                 break
+    # ---- key strings that read a built-in (${{line}}, ${{word}} ...) and are run more than once: expanded afresh every time, in both spellings ----
+    bjobs, bmeta = [], []
+    for var in ["line", "col", "word", "char", "lines"]:
+        key = "A ${{%s}}<esc>j" % var
+        text = "alpha x\nbeta yy\ngamma\ndelta zzz\n"
+        pairs = [(["-m", key, "-r", "1", "3"], 'repeat 4 {\n  move "%s"\n}\n' % key),
+                 (["-m", key, "-m", key, "-m", key], 'move "%s"\nmove "%s"\nmove "%s"\n' % (key, key, key)),
+                 (["-g", "a", "-m", "A ${{%s}}<esc>" % var, "--end"], 'global "a" {\n  move "A ${{%s}}<esc>"\n} \n' % var)]
+        for flags_, script in pairs:
+            bjobs += [{"args": flags_, "stdin": text}, {"args": [script], "stdin": text}]
+            bmeta.append((flags_, script, text))
+    bres = cli_map(binary, bjobs)
+    for k_, (flags_, script, text) in enumerate(bmeta):
+        r1, r2 = bres[2 * k_], bres[2 * k_ + 1]
+        chk.count(("builtin-in-key-string", tuple(flags_)), nontrivial=True)
+        if (r1[0], r1[1]) != (r2[0], r2[1]):
+            chk.violation("spec:forms differ in output", {"argv_short": flags_, "form": "vic", "argv_form": [script], "stdin": text, "rc": [r1[0], r2[0]],
+                          "stdout_short": r1[1].decode(errors="replace"), "stdout_form": r2[1].decode(errors="replace"), "stderr_form": r2[2].decode(errors="replace")[-300:]})
     # ---- file arguments: as arguments of the flags, as arguments behind a script, and named in the script's opts block ----
     from .. import drivers as D
     fjobs, fmeta = [], []
